@@ -1,4 +1,5 @@
 import CMacVerif.Model.Atomics
+import CMacVerif.Model.AtomicsMaint
 import CMacVerif.Util.Bits
 /-!
 Line-protocol driver for C08 (core Lean only).  One op line = one scenario:
@@ -45,6 +46,7 @@ def parseCmd (w : String) : Option Cmd :=
   | ["oa", c, v] => some (.postAdd (nat! c) (int! v))
   | ["ps", c, v] => some (.preSub (nat! c) (int! v))
   | ["ld", c] => some (.load (nat! c))
+  | ["aw", c, v] => some (.await (nat! c) (int! v))
   | ["lf", c, v] => some (.lfAdd (nat! c + 100) (int! v))
   | ["su", t, v] => some (.setUnf (nat! t) (int! v))
   | ["sd", q, t] => some (.seed (nat! q) (nat! t))
@@ -52,6 +54,11 @@ def parseCmd (w : String) : Option Cmd :=
   | ["ln"] => some .loadNum
   | ["mx", c, v] => some (.maxC (nat! c) (int! v))
   | ["ml", c] => some (.loadMx (nat! c))
+  | ["na"] => some .numActive
+  | ["cl"] => some (.maintMark 0 0)
+  | ["cf"] => some (.maintMark 1 0)
+  | ["ca", k] => some (.maintMark 2 (nat! k))
+  | ["gfe", n] => some (.maintMark 3 (nat! n))
   | _ => none
 
 def showRes : Res → String
@@ -72,12 +79,17 @@ def showRes : Res → String
   | .num v => s!"N{v}"
   | .maxed c => s!"MX{c}"
   | .mxval c v => s!"W{c}.{v}"
+  | .active v => s!"NA{v}"
+  | .maint 0 _ => "CL"
+  | .maint 1 _ => "CF"
+  | .maint 2 k => s!"CA{k}"
+  | .maint _ n => s!"GFE{n}"
   | .skip => "K"
 
 def pcName : PC → String
   | .idle => "idle" | .getCheck _ => "getCheck" | .getInc _ => "getInc" | .getCas _ _ => "getCas"
   | .getCount _ _ => "getCount" | .getMax _ _ _ => "getMax" | .getMaxCas _ _ _ _ => "getMaxCas"
-  | .cMax _ _ => "cMax" | .cMaxCas _ _ _ => "cMaxCas" | .cLoadMx _ => "cLoadMx" | .getTotal _ _ => "getTotal"
+  | .cMax _ _ => "cMax" | .cMaxCas _ _ _ => "cMaxCas" | .cLoadMx _ => "cLoadMx" | .loadTaken => "loadTaken" | .getTotal _ _ => "getTotal"
   | .apFill _ _ => "apFill" | .apPlace _ _ => "apPlace" | .crashed _ => "crashed"
   | .freeReset _ => "freeReset" | .freeYield _ => "freeYield" | .freeUnlock _ => "freeUnlock" | .freeDec _ => "freeDec"
   | .lockSpin _ => "lockSpin" | .lockTry _ => "lockTry" | .unlockL _ => "unlockL"
@@ -88,7 +100,7 @@ def pcName : PC → String
   | .popInit _ => "popInit" | .popScan _ _ => "popScan" | .popRemove _ _ _ => "popRemove"
   | .popUnlock _ r => if r.isSome then "popUnlockT" else "popUnlockN" | .qsz _ => "qsz"
   | .cInc _ => "cInc" | .cDec _ => "cDec" | .cPostInc _ => "cPostInc" | .cPreAdd _ _ => "cPreAdd"
-  | .cPostAdd _ _ => "cPostAdd" | .cPreSub _ _ => "cPreSub" | .cLoad _ => "cLoad"
+  | .cPostAdd _ _ => "cPostAdd" | .cPreSub _ _ => "cPreSub" | .cLoad _ => "cLoad" | .cAwait _ _ => "cAwait"
   | .lfLoad _ _ => "lfLoad" | .lfCas _ _ _ => "lfCas"
 
 structure Scen where
@@ -157,11 +169,30 @@ def runsOn (inner ms : Bool) (th : Thread) : Bool :=
   | .freeYield _ => !ms        -- with the MemorySpace hook the thread parks between wipe and release
   | _ => th.silent
 
+def maintOf (tid code arg : Nat) : Maint :=
+  match code with
+  | 0 => .clear
+  | 1 => .clearFast
+  | 2 => .clearAfter arg
+  | _ => .getFreeElements tid arg
+
+/-- the maintenance calls are applied by the environment (`maint`), at the place the program of
+the calling thread marks; the premise (every thread idle) is not enforced here: both sides do the
+same thing, the theorems only speak about the quiescent case -/
+def applyMark (cfg : Cfg) (s : State) (tid code arg : Nat) (rest : List Cmd) : State :=
+  let s1 := maint cfg s (maintOf tid code arg)
+  match s1.threads[tid]? with
+  | some th => { s1 with threads := s1.threads.set tid { th with prog := rest, res := .maint code arg :: th.res } }
+  | none => s1
+
 def settleD (cfg : Cfg) (inner ms : Bool) : Nat → State → Nat → State
   | 0, s, _ => s
   | fuel + 1, s, tid =>
     match s.threads[tid]? with
-    | some th => if runsOn inner ms th then settleD cfg inner ms fuel (step cfg s tid) tid else s
+    | some th =>
+      match th.pc, th.prog with
+      | .idle, .maintMark code arg :: rest => settleD cfg inner ms fuel (applyMark cfg s tid code arg rest) tid
+      | _, _ => if runsOn inner ms th then settleD cfg inner ms fuel (step cfg s tid) tid else s
     | none => s
 
 def allFinished (s : State) : Bool := s.threads.all Thread.finished
